@@ -2,7 +2,7 @@
 Symbolic: heading levels (u8 in 1..6); block kinds / shapes by forking within the bounds."""
 import z3
 from harness import *
-import natives
+import natives, re
 
 LEAFS = ('Para', 'Code', 'Rule', 'Table', 'Ref')
 KINDS = ('Para', 'Header', 'Code', 'Rule', 'Quote', 'Bullet', 'Ordered', 'Table', 'Ref', 'EPara')
@@ -58,6 +58,9 @@ class Gen:
         if k == 'Table':
             return {'k': 'Table', 't': t}, h.table([[h.istr(t + 'h')]], [[[h.istr(t + 'c')]]], self.lr(3))
         if k == 'Ref':
+            if self.hz.wiki_refs and ctx.choose(2) == 1:
+                # [[nT]]: a wiki link alone in its paragraph; its text is its target
+                return {'k': 'Ref', 't': 'n' + t, 'url': 'n' + t, 'lt': 'WikiLink'}, h.para([h.ilink('n' + t, 'n' + t, link_type='WikiLink')], self.lr())
             return {'k': 'Ref', 't': t, 'url': 'n' + t}, h.para([h.ilink('n' + t, t)], self.lr())
         if k == 'Quote':
             lr = self.lr(0)
@@ -97,7 +100,7 @@ def norm_seq(blocks):
         elif k == 'Table':
             out.append(('Table', b['t']))
         elif k == 'Ref':
-            out.append(('Ref', b['url'], b['t']))
+            out.append(('Ref', b['url'], '' if b.get('lt') == 'WikiLink' else b['t']))       # [[x]] is written from its target alone
         elif k == 'Quote':
             c = norm_seq(b['c'])
             if c:
@@ -108,6 +111,10 @@ def norm_seq(blocks):
                 out.append((k, tuple(items)))
     return out
 
+def tx(b):
+    """the text a block contributes: a wiki reference [[x]] is written from its target alone and carries no text of its own"""
+    return '' if (b['k'] == 'Ref' and b.get('lt') == 'WikiLink') else b['t']
+
 def norm_items(items):
     out = []
     for it in items:
@@ -115,7 +122,7 @@ def norm_items(items):
             continue            # empty items carry nothing
         b0 = it[0]
         if b0['k'] in TEXTLIKE:
-            out.append((('Item', b0['t']),) + tuple(norm_seq(it[1:])))
+            out.append((('Item', tx(b0)),) + tuple(norm_seq(it[1:])))
         elif b0['k'] in ('Bullet', 'Ordered'):
             if len(it) > 1:
                 raise Unspecified('item starts with a list and has further blocks')
@@ -359,7 +366,7 @@ def expected_owners(blocks, owners, item_text=None):
         elif k == 'Code':
             owners[('Raw', b['t'])] = cur
         elif k == 'Ref':
-            owners[('Reference', b['t'])] = cur
+            if tx(b): owners[('Reference', tx(b))] = cur         # wiki references carry no text to tell them apart: not tracked
         elif k == 'Table':
             owners[('Table', b['t'] + 'h')] = cur
         elif k == 'Quote':
@@ -367,7 +374,7 @@ def expected_owners(blocks, owners, item_text=None):
         elif k in ('Bullet', 'Ordered'):
             for it in b['items']:
                 if it and it[0]['k'] in TEXTLIKE:
-                    expected_owners(it[1:], owners, it[0]['t'])
+                    expected_owners(it[1:], owners, tx(it[0]))
                 elif it and it[0]['k'] in ('Bullet', 'Ordered') and len(it) == 1:
                     expected_owners(it[:1], owners, None)
     return owners
@@ -392,7 +399,8 @@ class DocHarness(Harness):
         self.max_nest = max_nest or 2
         self.max_items = 3
         self.kinds = kinds
-        self.second_pass = True
+        self.second_pass = False
+        self.wiki_refs = False
         self.bounds = {'blocks_per_note': self.budget, 'nesting': self.max_nest, 'kinds': list(kinds), 'heading_level': '1..6 (symbolic u8)'}
 
     def build(self, ctx, ex, key, blocks_v):
@@ -433,7 +441,7 @@ class DocHarness(Harness):
         bad = check_ri(pn, pk)
         ctx.law('C20.RI-established-by-patch-graph', not bad, {'input': ctx.input_desc, 'problems': bad[:5]})
         # ---- second format: what the writer emits is read back (writer harness: as the same blocks) and formatted again
-        if self.second_pass and not ctx.violations:
+        if self.second_pass:
             try:
                 line = [0]
                 again_v = graph_to_doc_vals(h, blocks, line)
@@ -458,8 +466,9 @@ class DocHarness(Harness):
         if any(b['k'] in ('Bullet', 'Ordered') and any(it and it[0]['k'] in ('Bullet', 'Ordered') for it in b['items']) for b in in_n):
             ctx.cover('merged-item')
         if self.tv_pick(ctx.trace):
-            ctx.tv = {'script': self.script(in_n, ctx.model()) + [{'op': 'format_twice', 'key': 'd/a'}], 'expect': [None, out['arena'], out['tree'], out['project'], None],
-                      'post': ['doc', bool([v for v in ctx.violations if not v['law'].startswith('C02.formatting')]), getattr(ctx, 'c02_text_same', None)]}
+            ext = getattr(ctx, 'c02_ext', '')
+            ctx.tv = {'script': ([{'op': 'new_graph', 'refs_extension': ext}] if ext else []) + self.script(in_n, ctx.model()) + [dict({'op': 'format_twice', 'key': 'd/a'}, **({'refs_extension': ext} if ext else {}))], 'expect': ([None] if ext else []) + [None, out['arena'], out['tree'], out['project'], None],
+                      'post': ['doc', bool([v for v in ctx.violations if not v['law'].startswith('C02.formatting')]), getattr(ctx, 'c02_text_same', None) if self.second_pass else 'off']}
         return sample
 
     def text_fixpoint(self, ctx, ex, blocks, out, key):
@@ -467,27 +476,23 @@ class DocHarness(Harness):
         the reference reader (mdref, validated against the real reader); the two texts must be equal"""
         import mdref
         h, prog = self.h, self.prog
-        if has_table(out['project']):
-            # a table is written by the cmark writer (outside); for the layout of the blocks around it, it stands as one
-            # leaf that is not a paragraph (a code block)
-            ctx.cover('table-as-opaque-leaf')
-            blocks = tables_as_leaves(prog, blocks)
+        tables = {}
+        def table_stub(ex_, c_, a_, dt_):
+            # the cmark table writer is outside: a table's text is one opaque line naming it
+            tb = natives.deref(a_[1]).items[0].v
+            cell = tb.f[0].v.items[0].v if tb.f[0].v.items else None
+            name = 'TABLE' + (cell.items[0].v.f[0].v if cell is not None and cell.items and cell.items[0].v.vn == 'Str' else str(len(tables)))
+            tables[name] = tb
+            return name
+        saved = dict(prog.overrides)
+        prog.overrides[re.compile(r'MarkdownWriter::write$')] = table_stub
+        if has_table(out['project']): ctx.cover('table-as-opaque-leaf')
+        ext = ('', '.md')[ctx.choose(2)] if has_link(out['project']) else ''
+        if ext: ctx.cover('refs-extension')
+        ctx.c02_ext = ext
         ctx.sym_repeat = []
-        opts = prog.mk_struct_lenient('model::config::MarkdownOptions', refs_extension='')
+        opts = prog.mk_struct_lenient('model::config::MarkdownOptions', refs_extension=ext)
         text1 = natives.as_str(ex.call('model::graph::blocks_to_markdown_sparce', [Ref(Cell(blocks)), Ref(Cell(opts))]))
-        # the inlines of every paragraph-like block, by the text the writer gave them
-        inl_of = {}
-        def collect(bs):
-            for c in bs.items:
-                b = c.v
-                if b.vn in ('Para', 'Plain', 'Header'):
-                    iv = b.f[0].v if b.vn != 'Header' else b.f[1].v
-                    t = natives.as_str(ex.call('model::graph::inlines_to_markdown', [Ref(Cell(iv)), Ref(Cell(opts))]))
-                    inl_of[t] = iv
-                elif b.vn == 'BlockQuote': collect(b.f[0].v)
-                elif b.vn in ('BulletList', 'OrderedList'):
-                    for it in b.f[0].v.items: collect(it.v)
-        collect(blocks)
         levels = list(ctx.sym_repeat)
         tree1 = mdref.neutral(mdref.parse(text1))
         line = [0]
@@ -495,10 +500,18 @@ class DocHarness(Harness):
             r = h.rng(line[0], line[0] + n); line[0] += n + 1
             return r
         def inl(t):
-            iv = inl_of.get(t)
-            if iv is None:
-                return [h.istr(t)]
-            return graph_inlines_to_doc(h, iv)
+            def conv(xs):
+                o = []
+                for x in xs:
+                    if x[0] == 'str':
+                        parts = x[1].split(' ')
+                        for i, w in enumerate(parts):
+                            if i: o.append(h.ispace())
+                            if w: o.append(h.istr(w))
+                    elif x[0] == 'emph': o.append(h.iemph(conv(x[1])))
+                    else: o.append(h.ilink(x[1], x[2], link_type=x[3] if len(x) > 3 else 'Regular'))
+                return o
+            return conv(mdref.inlines(t))
         def vals(bs):
             o = []
             for b in bs:
@@ -509,6 +522,8 @@ class DocHarness(Harness):
                     o.append(h.header(levels[lv[1]] if isinstance(lv, tuple) else lv, inl(b['t']), lr()))
                 elif k == 'C': o.append(h.code(b['t'].rstrip('\n'), b.get('lang'), lr(3)))
                 elif k == 'R': o.append(h.rule(lr()))
+                elif k == 'T':
+                    o += graph_to_doc_vals(h, VecV([Cell(tables[b['t']])]), line)
                 elif k == 'Q':
                     r = lr(0); o.append(h.quote(vals(b['c']), r))
                 else:
@@ -517,8 +532,9 @@ class DocHarness(Harness):
             return o
         try:
             again = vals(tree1)
-        except Unsupported:
+        except (Unsupported, KeyError):
             ctx.cover('inline-outside-the-text-claim')
+            prog.overrides = saved
             return
         n_v = len(ctx.violations)
         g2, gref2 = self.build(ctx, ex, key, h.vec(again))
@@ -529,6 +545,7 @@ class DocHarness(Harness):
         text2 = natives.as_str(ex.call('model::graph::blocks_to_markdown_sparce', [Ref(Cell(blocks2)), Ref(Cell(opts))]))
         levels2 = list(ctx.sym_repeat)
         ctx.sym_repeat = None
+        prog.overrides = saved
         # equal texts: same characters, and the symbolic heading depths pairwise equal
         m1 = [ord(ch) - 0xE000 for ch in text1 if 0xE000 <= ord(ch) <= 0xE0FF]
         m2 = [ord(ch) - 0xE000 for ch in text2 if 0xE000 <= ord(ch) <= 0xE0FF]
@@ -536,8 +553,7 @@ class DocHarness(Harness):
         same = plain(text1) == plain(text2) and len(m1) == len(m2) and AND([EQ(levels[a], levels2[b]) for a, b in zip(m1, m2)])
         why = not_writable(out['project'])
         ctx.c02_why = why
-        ctx.c02_text_same = same if isinstance(same, bool) else None
-        ctx.law('C02.formatting-the-formatted-text-changes-nothing', same, {'input': ctx.input_desc, 'first': plain(text1).replace('\ue000', '#'), 'second': plain(text2).replace('\ue000', '#'), 'why': why})
+        ctx.c02_text_same = ctx.law('C02.formatting-the-formatted-text-changes-nothing', same, {'input': ctx.input_desc, 'first': plain(text1).replace('\ue000', '#'), 'second': plain(text2).replace('\ue000', '#'), 'why': why})
         ctx.cover('text-formatted-twice')
 
     def tv_pick(self, trace):
@@ -550,7 +566,7 @@ class DocHarness(Harness):
             tv['diff'] = 'arena / tree / projection differ'
             return False
         ft = native_out[-1]
-        if isinstance(ft, list) and len(ft) == 2:
+        if isinstance(ft, list) and len(ft) == 2 and tv['post'][2] != 'off':
             native_same = ft[0] == ft[1]
             if tv['post'][2] is not None and tv['post'][2] != native_same:
                 # the executor's two formats (reference reader in between) and the real two formats disagree
@@ -623,6 +639,7 @@ class DocHarness(Harness):
     def finish_violation(self, ctx, v):
         """attach what replay needs (called for every violation of a path)"""
         tree = getattr(ctx, 'input_tree', None)
+        v['ext'] = getattr(ctx, 'c02_ext', '')
         if tree is not None:
             v['input_tree'] = concretize_tree(tree, v.get('model') or {})
             v['role'] = self.role_of(v, tree)
@@ -630,8 +647,11 @@ class DocHarness(Harness):
     def role_of(self, v, tree):
         if v['law'] == 'C03.no-panic' and 'section block panic' in (v['info'].get('msg') or ''):
             return 'list-item-first-block=' + first_bad_item_kind(tree)
-        if v['law'] == 'C02.formatting-the-formatted-text-changes-nothing':
-            return v['info'].get('why') or 'general'
+        if v['law'] in ('C02.formatting-the-formatted-text-changes-nothing', 'C02.second-format-changes-nothing'):
+            if v['info'].get('why'): return v['info']['why']
+            if has_empty_container(tree): return 'empty-container'
+            if has_list_first_item_with_more(tree): return 'item-starts-with-list-and-has-further-blocks'
+            return 'general'
         if has_list_first_item_with_more(tree):
             return 'item-starts-with-list-and-has-further-blocks'
         return 'general'
@@ -653,14 +673,14 @@ class DocHarness(Harness):
             return False
         out = {'arena': res[1], 'keys': res[2], 'tree': res[3], 'project': res[4]}
         if v['law'] in ('C02.second-format-changes-nothing', 'C02.formatting-the-formatted-text-changes-nothing'):
-            s2 = [{'op': 'doc', 'key': 'd/a', 'blocks': v['input_tree']}, {'op': 'to_markdown', 'key': 'd/a'}]
+            ext = v.get('ext') or ''
+            s2 = [{'op': 'new_graph', 'refs_extension': ext}, {'op': 'doc', 'key': 'd/a', 'blocks': v['input_tree']}, {'op': 'format_twice', 'key': 'd/a', 'refs_extension': ext}]
             r2 = driver.run(s2)
-            t1 = r2[-1]
-            if not isinstance(t1, str):
-                v['replay_verdict'] = 'native first format failed: %s' % str(t1)[:100]; return False
-            r3 = driver.run([{'op': 'new_graph'}, {'op': 'markdown', 'key': 'd/a', 'text': t1}, {'op': 'to_markdown', 'key': 'd/a'}])
-            t2 = r3[-1]
-            v['replay_script'] = s2 + [{'op': 'markdown', 'key': 'd/a', 'text': t1}, {'op': 'to_markdown', 'key': 'd/a'}]
+            ft = r2[-1]
+            if not (isinstance(ft, list) and len(ft) == 2):
+                v['replay_verdict'] = 'native format failed: %s' % str(ft)[:100]; return False
+            t1, t2 = ft
+            v['replay_script'] = s2
             v['replay_result'] = [t1, t2]
             v['replay_verdict'] = 'real format twice: %s' % ('second text DIFFERS' if t1 != t2 else 'same text')
             return t1 != t2
@@ -714,6 +734,16 @@ def tables_as_leaves(prog, bs):
         else:
             out.append(b)
     return VecV([Cell(x) for x in out])
+
+def has_empty_container(bs):
+    for b in bs:
+        if b['k'] == 'Quote' and (not b['c'] or has_empty_container(b['c'])): return True
+        if b['k'] in ('Bullet', 'Ordered'):
+            if not b['items'] or any((not it) or has_empty_container(it) for it in b['items']): return True
+    return False
+
+def has_link(blocks):
+    return '"Link"' in __import__('json').dumps(blocks, default=str)
 
 def has_table(blocks):
     for b in blocks:
